@@ -134,13 +134,15 @@ class Model(object):
     """policy 'intersect': hide set of a function-like expansion is (HS(name) & HS(')')) | {name}  (Prosser)
        policy 'union'    : HS(name) | {name}.  Programs on which the two differ are DR-268 territory."""
 
-    def __init__(self, policy="intersect", max_steps=20000):
+    def __init__(self, policy="intersect", max_steps=4000, max_tokens=60000):
         self.policy = policy
         self.macros = {}
         self.stack = {}
         self.ever = set()        # names that have been defined at some point
         self.f = set()           # features exercised
         self.steps = 0
+        self.ntok = 0
+        self.max_tokens = max_tokens
         self.max_steps = max_steps
         self.out = []
 
@@ -545,6 +547,9 @@ class Model(object):
             res = self.subst_seq(m, nodes, args, cache, name)
             if not res:
                 self.f.add("fn-empty-result")
+        self.ntok += len(res) + 1
+        if self.ntok > self.max_tokens:
+            raise Ambiguous("expansion too large")
         return [t.cp(hs=t.hs | hs) for t in res]
 
     def lit_features(self, m, toks):
